@@ -106,6 +106,13 @@ def gen(rng, tier):
                            "rep": 0, "how": how}
             n += 1
             yield {"family": "max_requests.h2c", "kind": "max_requests", "backend": be, "max_requests": 2, "jitter": 0, "tag": n, "rep": 0, "how": "h2c"}
+            if be == "trio":
+                # serve() started as the public API starts it by default - without a shutdown trigger (on asyncio that installs signal
+                # handlers, which only the main thread may do): reaching the limit is then its only reason to stop
+                for mr, jitter in ((2, 0), (1, 2)):
+                    n += 1
+                    yield {"family": "max_requests.no-shutdown-trigger", "kind": "max_requests", "backend": be, "max_requests": mr, "jitter": jitter,
+                           "tag": n, "rep": 0, "how": "h1_no_trigger"}
             # ---- the real master process with spawn-ed workers: gone workers are replaced, nothing is lost meanwhile ----
             for workers, mr, jitter in (((1, 3, 0),) if tier == "quick" else ((1, 3, 0), (2, 2, 1), (1, 1, 0), (2, 4, 2))):
                 n += 1
@@ -400,6 +407,7 @@ def _max_requests_one(case, tally, config=None, label=""):
         apps["default"] = [["recv_until_end"], ["wait", "never"], ["respond", 200, [(b"content-length", b"2")], b"ok"]]
     held = []
     h = ServeHarness(be, cfg if config is None else {}, apps, config=config)
+    h.no_trigger = how == "h1_no_trigger"
     if config is not None:
         h.config.bind = ["127.0.0.1:0"]
     served = 0
